@@ -1103,6 +1103,9 @@ def _guarded_nonempty(fn, name: str, use: ast.AST) -> bool:
 
 
 VARIANTS = [
+    Variant("the 'largest allowed field fails' branch moved in front of the bracket tests (seeded C05_l)", "break",
+            [(SR, "        if check_bracket(sign(t_0_lower), sign(t_0_upper)):\n            if self.disp:\n                print(\"Size between min and max of lower bound in domain.\")",
+              "        if t_m1 > 0.0:\n            if self.sim_params.continue_if_design_unmet:\n                selection_key = x_r_idx\n                self.initialize_ghe(self.coordinates_domain[selection_key], self.sim_params.max_height, self.fieldDescriptors[selection_key])\n                return selection_key, self.coordinates_domain[selection_key]\n            else:\n                raise ValueError(\"Search failed.\")\n        elif check_bracket(sign(t_0_lower), sign(t_0_upper)):\n            if self.disp:\n                print(\"Size between min and max of lower bound in domain.\")")], "R02.3"),
     Variant("find_design reports a failed search as a status code when throw is off (seeded C02_h)", "break",
             [("ghedesigner.manager", "        self._search = self._design.find_design()\n", "        try:\n            self._search = self._design.find_design()\n        except ValueError as error:\n            print(f\"Design search failed: {error}\", file=stderr)\n            if throw:\n                raise\n            return 1\n")], "R02.8"),
     Variant("find_design logs a failed search and re-raises it", "benign",
